@@ -196,7 +196,9 @@ func (m *Monitors) judgeCompleteness(prop string, H uint64, deciding []*Node, st
 	// (sent to some correct nodes only) is outside it
 	var acceptors []string
 	for _, n := range deciding {
-		if _, done := n.Commits[H]; done {
+		// (a node that committed has disposed of its store: what it stored in that view is in the monitor's record of its
+		// Storage calls; a node that committed in another view, with other help, did not join this one)
+		if h, ok := m.node(n.Id).storedPP[hv{H, view}]; ok && h == hash {
 			acceptors = append(acceptors, n.Id)
 			continue
 		}
